@@ -298,6 +298,32 @@ def observe_pipeline_write(case: dict, scratch: str = None) -> dict:
     return event
 
 
+def observe_target(case: dict, _scratch: str = None) -> dict:
+    """ where the result files of a run with this input path would go """
+    from ..common import import_repo
+    import_repo()
+    from antismash.config import build_config, destroy_config
+    from antismash.main import canonical_base_filename
+    logging.disable(logging.CRITICAL)
+    outdir = os.path.join(os.sep, "verif_nowhere", "new_job")
+    destroy_config()
+    try:
+        options = build_config([], isolated=True)
+
+        def run():
+            base = canonical_base_filename(os.path.join(case["dir"], case["name"]) if case["dir"] else case["name"], outdir, options)
+            full = os.path.normpath(base)
+            return {"inside": os.path.dirname(full) == outdir, "leaf": [ord(ch) for ch in base[len(outdir):].lstrip(os.sep)]
+                    if base.startswith(outdir) else [ord(ch) for ch in base]}
+        try:
+            ret = {"exc": "", "v": run()}
+        except Exception as err:  # pylint: disable=broad-except
+            ret = {"exc": type(err).__name__, "v": {"inside": False, "leaf": []}}
+    finally:
+        destroy_config()
+    return {"op": "target", "input": case, "ret": ret}
+
+
 # ---- the directory guard ---------------------------------------------------------------------------
 def _snapshot(root):
     """ {relative path: ("dir",) | ("file", sha1 of bytes)} of everything below root (root itself is "."). """
@@ -390,7 +416,7 @@ def _observe_many(job):
     scratch, cases = job
     out = []
     for case in cases:
-        func = observe_dir if case["op"] != "write" else (
+        func = observe_target if case["op"] == "target" else observe_dir if case["op"] != "write" else (
             observe_pipeline_write if case["input"]["writer"] == "run_antismash" else observe_write)
         event = func(case["input"], scratch)
         event["id"] = case["id"]
@@ -425,6 +451,9 @@ def _dir_cases(run):
 
 
 def _features(op, case):
+    if op == "target":
+        return sorted({"compressed" if case["name"].lower().endswith((".gz", ".bz", ".xz")) else "plain",
+                       "with_directory" if case["dir"] else "bare_name"})
     if op == "write":
         return sorted({case["writer"], "fault_" + case["fault"]["phase"], "kind_" + case["fault"]["kind"]})
     return sorted({"mode_" + case["mode"], "state_" + case["state"], "logfile_configured" if case["logcfg"] else
@@ -432,7 +461,8 @@ def _features(op, case):
 
 
 def _call_text(op, case):
-    func = "observe_dir" if op != "write" else ("observe_pipeline_write" if case.get("writer") == "run_antismash" else "observe_write")
+    func = "observe_target" if op == "target" else "observe_dir" if op != "write" else (
+        "observe_pipeline_write" if case.get("writer") == "run_antismash" else "observe_write")
     return f"from harness.props import c20; c20.{func}({case!r})"
 
 
@@ -513,6 +543,10 @@ def run(ctx):
                                         "fault": {"phase": "convert", "i": i, "j": 1, "kind": "InvalidType"}}}
               for nrec in (1, 3) for i in sorted({1, nrec})]
     cases += [{"op": "dir", "input": case} for case in _dir_cases(dirs)]
+    # where the result files go: input files with and without compression suffix, named with and without a directory
+    cases += [{"op": "target", "input": {"name": name, "dir": where}}
+              for name in ("seq.gbk", "seq.gbk.gz", "seq.fa.bz", "genome.v2.gb.xz", "SEQ.GBK.GZ", "seq.gz")
+              for where in ("", "old_job", os.path.join("..", "elsewhere", "old_job"), os.path.join(os.sep, "data", "old_job"))]
     if not any(c["op"] == "write" for c in cases) or not any(c["op"] == "dir" for c in cases):
         raise MachineryError("no cases read from the TLC dumps")
     for idx, case in enumerate(cases):
@@ -565,7 +599,10 @@ def run(ctx):
 def replay(ctx, record):
     case = record["input"]
     op = "write" if "writer" in case else "dir"
-    func = observe_dir if op != "write" else (observe_pipeline_write if case["writer"] == "run_antismash" else observe_write)
+    if "name" in case:
+        op = "target"
+    func = observe_target if op == "target" else observe_dir if op != "write" else (
+        observe_pipeline_write if case["writer"] == "run_antismash" else observe_write)
     event = func(case, ctx.workdir)
     event["id"] = 0
     by_id = {0: {"op": op, "input": case, "call": _call_text(op, case),
